@@ -109,7 +109,7 @@ CHECKS["C06"] = dict(
 
 CHECKS["C13"] = dict(
     technique="property-based testing (rapid) with fault injection: generated graphs x fault plans x paradigms; oracle = reference model says which injected failure executes + errors.Is/As/text/sentinel/cancellation contract + process survival",
-    level_text="Generated-input search with injected faults: 1-3 lambdas (any nesting level, also several in one step) return a wrapped custom error, panic, deliver an error item or a panic on their output stream, or cancel the context; all four paradigms. When the reference model says an injected failure executes, the call must fail, errors.Is/As must recover the injected error of one of the failing nodes, the text must name its node path outer->inner->key, panics must be reported as errors; the step-limit sentinel and context.Canceled must be matchable with errors.Is. A panic that kills the test process is reported as a violation through the current-case file. A second part works on package schema directly: merges of 2-4 sources some of which are converted readers / copy children whose convert function panics at a generated item index (0-13, i.e. with the forwarding buffer empty, partly filled or full) with a lagging reader; per panicking source exactly the items before the panic, then one error item mentioning the panic, must arrive, then EOF.",
+    level_text="Generated-input search with injected faults: 1-3 lambdas (any nesting level, also several in one step) return a wrapped custom error, panic, deliver an error item or a panic on their output stream, or cancel the context; all four paradigms. When the reference model says an injected failure executes, the call must fail, errors.Is/As must recover the injected error of one of the failing nodes, the text must name its node path outer->inner->key, panics must be reported as errors; the step-limit sentinel and context.Canceled must be matchable with errors.Is. A panic that kills the test process is reported as a violation through the current-case file. A second part works on package schema directly: merges of 2-4 sources some of which are converted readers / copy children whose convert function panics at a generated item index (0-13, i.e. with the forwarding buffer empty, partly filled or full) with a lagging reader; per panicking source exactly the items before the panic, then one error item mentioning the panic, must arrive, then EOF. A step-limit failure inside a nested graph must name exactly the path of that graph node. Tool calls: a ToolsNode with one panicking tool (called, but not first; its gate opened last so that the node is already waiting for its goroutines) must return an error, under -race. Stream-forwarding goroutines: a schema-level sub-check merges copied/converted sources of which some panic inside their forwarding goroutine and requires the panic as an error item on the merged stream.",
     level_note="For failures that travel on a stream in stream-mode paradigms only survival/return is asserted here (whether such a stream is read is decided by C04's influence analysis). Node path naming is not asserted below chain levels (chain node keys are generated by the framework).",
     rule="rapid draws a GraphSpec (all modes, nested, paradigm subsets) and a fault plan; non-trivial = the model executes an injected failure and (it sits at nesting depth >= 1, or >= 2 failing nodes execute in the failing step, or the failure travels on a stream); distinct = FNV-1a of case JSON",
     assumptions=GRAPH_ASSUME,
@@ -212,7 +212,7 @@ CHECKS["C18"] = dict(
 
 CHECKS["C09"] = dict(
     technique="property-based testing (rapid) of concurrent use under the race detector: generated compiled objects (graphs of all kinds, ReAct agent, host multi-agent) x N concurrent callers x mixed paradigms; oracle = single-run reference per call + isolation of per-call data + race reports classified by stack frames",
-    level_text="Generated graphs of every kind (state with handlers and ProcessState, branches, nesting, native paradigm subsets), the ReAct agent (with and without return-directly tools, MessageModifier, streamed model output) and the host multi-agent are each compiled once and then called from 2-8 goroutines x 1-3 calls with distinct inputs, the calling paradigms mixed, a start barrier and yields inside node bodies. Oracle: every call's result (and executed (node,input) multiset, model histories, tool invocations) equals what the reference model / reference loop gives for that call alone; a per-call callback handler sees exactly its own call; no state object is seen by two calls; everything is built with -race and a race report whose accesses lie in non-harness frames of the eino module is a violation (reports confined to harness frames make the run inconclusive).",
+    level_text="Generated graphs of every kind (state with handlers and ProcessState, branches, nesting, native paradigm subsets), the ReAct agent (with and without return-directly tools, MessageModifier, streamed model output), the host multi-agent and a graph around a ToolsNode (some calls passing their own tool list with the WithToolList call option) are each compiled once and then called from 2-8 goroutines x 1-3 calls with distinct inputs, the calling paradigms mixed, a start barrier and yields inside node bodies. Oracle: every call's result (and executed (node,input) multiset, model histories, tool invocations) equals what the reference model / reference loop gives for that call alone; a per-call callback handler sees exactly its own call; no state object is seen by two calls; everything is built with -race and a race report whose accesses lie in non-harness frames of the eino module is a violation (reports confined to harness frames make the run inconclusive).",
     level_note="The race detector judges executed interleavings only; absence of a report is weak evidence. The Go scheduler is not owned.",
     rule="rapid draws the object, worker and call counts, inputs and paradigms; non-trivial = >= 3 calls on an object with state, branches or nesting (graphs) / on an agent with a non-empty script; distinct = FNV-1a of case JSON",
     assumptions=GRAPH_ASSUME,
